@@ -982,3 +982,84 @@ pub fn packed_replay(o: &Opts) -> R<()> {
     println!("{}", json!({"cases": n, "panics": panics}));
     Ok(())
 }
+
+// ------------------------------------------------------------------------------------------------
+// From the resolved type of a slot to its layout entries, against Flatten.tla
+
+/// `flatten-replay`: every tree enumerated by `FlattenGen.tla` is stated as typing judgements about the constant slot 5
+/// (a word is `bytesN`), the real `TypeChecker::unify` resolves it and builds the layout, and the entries are written
+/// for `FlattenTrace.tla`.
+pub fn flatten_replay(o: &Opts) -> R<()> {
+    use storage_layout_extractor::{
+        tc::{Config as TcConfig, TypeChecker},
+        vm::value::{known::KnownWord, Provenance, RSV, RSVD},
+        watchdog::LazyWatchdog,
+    };
+    fn state_tree(tc: &mut TypeChecker, var: TypeVariable, t: &J) {
+        let a = t.as_array().unwrap();
+        if a[0] == "w" {
+            let w = a[1].as_u64().unwrap() as usize;
+            unsafe { tc.state_mut() }.infer(var, TE::Word { width: Some(w), usage: WordUse::Bytes });
+        } else {
+            let mut spans = Vec::new();
+            for s in a[1].as_array().unwrap() {
+                let child = unsafe { tc.state_mut().allocate_ty_var() };
+                state_tree(tc, child, &s[2]);
+                spans.push(Span::new(child, s[0].as_u64().unwrap() as usize, s[1].as_u64().unwrap() as usize));
+            }
+            unsafe { tc.state_mut() }.infer(var, TE::Packed { types: spans, is_struct: false });
+        }
+    }
+    let cases = std::fs::read_to_string(o.str("cases")?).map_err(|e| e.to_string())?;
+    let mut w = Ndjson::create(&o.str("out")?)?;
+    w.put(&json!({"ev": "begin"}));
+    let (mut n, mut failed) = (0u64, 0u64);
+    for line in cases.lines().filter(|l| !l.trim().is_empty()) {
+        let c: J = serde_json::from_str(line).map_err(|e| e.to_string())?;
+        let tree = c["tree"].clone();
+        let res = guarded(|| {
+            let mut tc = TypeChecker::new(TcConfig::default(), LazyWatchdog.in_rc());
+            let key = RSV::new_known_value(0, KnownWord::from(5usize), Provenance::Synthetic, None);
+            let slot = RSV::new_synthetic(1, RSVD::StorageSlot { key });
+            let root = unsafe { tc.state_mut() }.register(slot);
+            state_tree(&mut tc, root, &tree);
+            tc.unify().map_err(|e| format!("{e:?}"))
+        });
+        n += 1;
+        let mut rec = json!({"ev": "flatten", "tree": tree});
+        match res {
+            Ok(Ok(layout)) => {
+                rec["res"] = json!("ok");
+                rec["entries"] = json!(layout.slots().iter().map(|s| {
+                    let t = crate::layouts::type_json(&s.typ);
+                    let k = t["k"].as_str().unwrap_or("").to_string();
+                    let width: u64 = match k.as_str() {
+                        "uint" | "int" | "number" | "bytes" | "bits" => t["n"].as_u64().unwrap_or(0),
+                        "address" => 160,
+                        "bool" => 8,
+                        "selector" => 32,
+                        "function" => 192,
+                        _ => 0,
+                    };
+                    json!({"offset": s.offset, "width": width, "kind": k})
+                }).collect::<Vec<_>>());
+            }
+            Ok(Err(e)) => {
+                failed += 1;
+                rec["res"] = json!("err");
+                rec["msg"] = json!(e.chars().take(200).collect::<String>());
+                rec["entries"] = json!([]);
+            }
+            Err(p) => {
+                failed += 1;
+                rec["res"] = json!("panic");
+                rec["msg"] = json!(p);
+                rec["entries"] = json!([]);
+            }
+        }
+        w.put(&rec);
+    }
+    w.finish();
+    println!("{}", json!({"cases": n, "failed": failed}));
+    Ok(())
+}
